@@ -87,16 +87,28 @@ def _run(cmd, cwd=None, log=None):
     return p.stdout
 
 
-def _prune(prefix, keep):
+def _prune(prefix, keep, age=1500):
+    """Removes build directories of this flavour that were last used more than `age` seconds ago
+    (never one another process may be using right now); always keeps the newest other one."""
     try:
         ents = [e for e in os.listdir(BUILD_ROOT) if e.startswith(prefix + '-') and
-                len(e) == len(prefix) + 1 + 16]
+                len(e) == len(prefix) + 1 + 16 and e != keep]
     except OSError:
         return
-    ents = [e for e in ents if e != keep]
-    ents.sort(key=lambda e: os.path.getmtime(os.path.join(BUILD_ROOT, e)))
-    for e in ents[:-1] if len(ents) > 1 else []:
-        shutil.rmtree(os.path.join(BUILD_ROOT, e), ignore_errors=True)
+    now = time.time()
+
+    def used(e):
+        try:
+            return os.path.getmtime(os.path.join(BUILD_ROOT, e, '.vf_ok'))
+        except OSError:
+            try:
+                return os.path.getmtime(os.path.join(BUILD_ROOT, e))
+            except OSError:
+                return now
+    ents.sort(key=used)
+    for e in ents[:-1]:
+        if now - used(e) > age:
+            shutil.rmtree(os.path.join(BUILD_ROOT, e), ignore_errors=True)
 
 
 def get(flavour):
@@ -186,13 +198,7 @@ def compile_c(name, sources, flags, deps_hash=''):
                 cc = flags[0]
                 _run([cc] + flags[1:] + ['-o', tmp] + srcs)
                 os.rename(tmp, out)
-                # prune older versions of this harness
-                for e in os.listdir(d):
-                    if e.startswith(name + '-') and os.path.join(d, e) != out and '.tmp' not in e:
-                        try:
-                            os.remove(os.path.join(d, e))
-                        except OSError:
-                            pass
+                prune_old(d, name + '-', out)
         finally:
             fcntl.flock(lock, fcntl.LOCK_UN)
             lock.close()
@@ -216,14 +222,23 @@ def layout():
         with open(tmp, 'wb') as f:
             f.write(data)
         os.rename(tmp, out)
-        for e in os.listdir(d):
-            if e.startswith('layout-') and os.path.join(d, e) != out:
-                try:
-                    os.remove(os.path.join(d, e))
-                except OSError:
-                    pass
+        prune_old(d, 'layout-', out)
     with open(out) as f:
         return json.load(f)
+
+
+def prune_old(d, prefix, keep, age=1800):
+    """Removes cache entries with this prefix that are older than `age` seconds (never another
+    process's fresh or temporary files)."""
+    now = time.time()
+    for e in os.listdir(d):
+        p = os.path.join(d, e)
+        if e.startswith(prefix) and p != keep and '.tmp' not in e:
+            try:
+                if now - os.path.getmtime(p) > age:
+                    os.remove(p)
+            except OSError:
+                pass
 
 
 def asan_runtime():
